@@ -912,7 +912,7 @@ pub fn c12_check_one(rep: &mut Report, c: &ReplCase, s: &S) {
     }
 }
 
-fn gen_repl_case(rng: &mut Rng) -> ReplCase {
+pub fn gen_repl_case(rng: &mut Rng) -> ReplCase {
     let alpha = utf8_alphabet(rng);
     let hlen = rng.range(0, 14);
     let mut hay = String::new();
